@@ -10,11 +10,11 @@ import (
 	"crypto/rsa"
 	"encoding/binary"
 	"io"
+	"net"
 	"reflect"
 	"sync"
 	"time"
 
-	"github.com/k0kubun/pp"
 	"github.com/pkg/errors"
 	"github.com/xelaj/errs"
 
@@ -267,17 +267,21 @@ func (m *MTProto) startReadingResponses(ctx context.Context) {
 				return
 			default:
 				err := m.readMsg()
-				switch err {
-				case nil: // skip
-				case context.Canceled:
+				var netErr net.Error
+				switch {
+				case err == nil: // skip
+				case err == context.Canceled:
 					return
-				case io.EOF:
+				case err == io.EOF, errors.As(err, &netErr):
+					// connection is closed or broken
 					err = m.Reconnect()
 					if err != nil {
 						m.warnError(errors.Wrap(err, "can't reconnect"))
 					}
 				default:
-					check(err)
+					// unexpected or broken message from server is not a reason to stop reading (and to kill
+					// whole app by panic): warning about it, and waiting for next messages
+					m.warnError(err)
 				}
 			}
 		}
@@ -377,8 +381,6 @@ messageTypeSwitching:
 		// игнорим, пришло и пришло, че бубнить то
 
 	case *objects.BadMsgNotification:
-		pp.Println(message)
-		panic(message) // for debug, looks like this message is important
 		return BadMsgErrorFromNative(message)
 
 	case *objects.RpcResult:
